@@ -1,7 +1,8 @@
 import Drand.DKG.Order
 import Drand.Beacon.Transition
 import Drand.Driver.Hash
-namespace Drand.Driver
+namespace Drand.Driver.DkgRunD
+open Drand.Driver.HashD
 open Drand Drand.Codec Drand.DKG Drand.Beacon.Transition
 
 /-- participant token `addr|key|sig|keyOK` -/
@@ -122,4 +123,4 @@ def dkgrunStep (f : List String) : String :=
     | _, _, _, _, _ => "bad-op"
   | _ => "bad-op"
 
-end Drand.Driver
+end Drand.Driver.DkgRunD
